@@ -1,7 +1,8 @@
 import Uhppote.Model.Events
 import Uhppote.Gen.Messages
 import Uhppote.Props.C04
-import Uhppote.Props.C03
+import Uhppote.Gen.Driver
+import Uhppote.Proofs.Buffers
 import Uhppote.Props.C02
 /-! # C10 — the event listener delivers every valid event once, in order, and nothing else (partial)
 
@@ -77,11 +78,11 @@ theorem C10_event_has_no_views :
     ((Gen.Messages.all.lookup "GetStatusResponse").getD []).leaves.length = 25 := by decide
 
 /-- T5 obligation: the receive buffer of `Listen` is larger than a message, so an over-long datagram (a valid event followed by more bytes) is seen as over-long and hence is an error callback, never an event
-    (`C10_wrong_length_is_error` applied to what the buffer holds, `C03.C03_length_visible`) -/
+    (`C10_wrong_length_is_error` applied to what the buffer holds, `Proofs.Buffers.length_visible`) -/
 theorem C10_receive_buffer : (Gen.Driver.bufSizes.lookup "Listen").map (fun n => decide (64 < n)) = some true := by decide
 
 theorem C10_overlong_seen (n : Nat) (h : 64 < n) (d : Bytes) (hd : d.length ≠ 64) : (received n d).length ≠ 64 :=
-  fun hc => hd ((C03.C03_length_visible n h 0 d).1.1 hc)
+  fun hc => hd ((Proofs.Buffers.length_visible n h 0 d).1.1 hc)
 
 /-- **every field of a delivered status is the protocol decoding of the datagram**: an event callback carries the status
     mapping (the C02 mapping: `C02_result_positional`) of a reply struct that lies in the protocol's
